@@ -9,7 +9,7 @@ mod proofs {
     use leptos_i18n_build::TranslationsFormatter;
     use std::rc::Rc;
 
-    const CAP: usize = 24;
+    const CAP: usize = 20;
 
     struct Sink {
         buf: [u8; CAP],
@@ -136,19 +136,19 @@ mod proofs {
     }
 
     #[kani::proof]
-    #[kani::unwind(26)]
+    #[kani::unwind(22)]
     fn json_roundtrip_1_char() {
         run(1);
     }
 
     #[kani::proof]
-    #[kani::unwind(26)]
+    #[kani::unwind(22)]
     fn json_roundtrip_2_chars() {
         run(2);
     }
 
     #[kani::proof]
-    #[kani::unwind(26)]
+    #[kani::unwind(22)]
     fn witness_json_reaches_assert() {
         let c0 = any_char();
         let mut s = String::new();
